@@ -3,9 +3,14 @@
 into Lean 4 definitions over BitVec, driven by clang's *typed* JSON AST.
 
 usage: c2lean_proto.py <file.c> <fn>[,<fn>...] [-- extra clang args]
-Prints a Lean file on stdout.  Anything outside the subset raises (never skipped).
+Prints a Lean file on stdout.  Anything outside the subset raises (never skipped): loops, pointers other than
+`p->scalar_field` / `*p`, static locals, shadowing declarations, side effects under `&&`/`||`/`?:`, shifts by a
+non-literal or out-of-range amount, reads of possibly uninitialised locals, bit-fields.
+NOT checked (trusted, stated in DESIGN §4): signed arithmetic is translated as two's-complement wrap-around — no
+obligation is generated that a signed operation does not overflow (the translated sources use unsigned types or
+values far from the limits).
 """
-import json, subprocess, sys
+import json, re, subprocess, sys
 
 INT_TYPES = {
     '_Bool': (8, False), 'char': (8, True), 'signed char': (8, True), 'unsigned char': (8, False),
@@ -78,6 +83,22 @@ def const_eval(n):
         return wrapint(r, ctype(n))
     raise Unsupported('constant expr ' + k)
 
+def has_side_effect(n):
+    k = n.get('kind')
+    if k == 'BinaryOperator' and n.get('opcode') == '=':
+        return True
+    if k == 'CompoundAssignOperator':
+        return True
+    if k == 'UnaryOperator' and n.get('opcode') in ('++', '--'):
+        return True
+    if k == 'CallExpr':
+        return True            # calls are only pure when we translated the callee; be conservative under short-circuit evaluation
+    return any(has_side_effect(c) for c in n.get('inner', []) if isinstance(c, dict))
+
+
+UNINIT = '<uninitialised>'
+
+
 class Fn:
     def __init__(self, tu, decl):
         self.tu, self.decl = tu, decl
@@ -113,7 +134,7 @@ class Fn:
         raise Unsupported('lvalue ' + k)
 
     def assign(self, env, key, expr):
-        if env['$done'] != 'false':
+        if env['$done'] != 'false' and env.get(key) != UNINIT:
             expr = f'(if {env["$done"]} then {env[key]} else {expr})'
         base = key.replace('->', '_').replace('*', 'deref_')
         env[key] = self.bind(base, expr)
@@ -140,7 +161,10 @@ class Fn:
         if k == 'DeclRefExpr' and n.get('referencedDecl', {}).get('kind') == 'EnumConstantDecl':
             return lit(self.tu['enums'][n['referencedDecl']['name']], ctype(n)[0])
         if k in ('DeclRefExpr', 'MemberExpr'):
-            return env[self.lvalue_key(n)]
+            v = env[self.lvalue_key(n)]
+            if v == UNINIT:
+                raise Unsupported('read of a possibly uninitialised local: ' + self.lvalue_key(n))
+            return v
         if k == 'UnaryOperator':
             op = n['opcode']
             if op == '*':
@@ -157,6 +181,8 @@ class Fn:
             if op in ('++', '--'):
                 key = self.lvalue_key(a)
                 old = env[key]
+                if old == UNINIT:
+                    raise Unsupported('read of a possibly uninitialised local: ' + key)
                 aw = ctype(a)[0]
                 new = f'({old} {"+" if op == "++" else "-"} {lit(1, aw)})'
                 self.assign(env, key, new)
@@ -165,6 +191,8 @@ class Fn:
         if k == 'BinaryOperator':
             op = n['opcode']
             l, r = n['inner']
+            if op in ('&&', '||') and has_side_effect(r):
+                raise Unsupported('side effect in the right operand of ' + op + ' (short-circuit evaluation)')
             if op == '=':
                 v = self.ev(r, env)
                 self.assign(env, self.lvalue_key(l), v)
@@ -176,6 +204,8 @@ class Fn:
             key = self.lvalue_key(l)
             ct = INT_TYPES[n['computeLHSType'].get('desugaredQualType', n['computeLHSType']['qualType'])]
             rt = INT_TYPES[n['computeResultType'].get('desugaredQualType', n['computeResultType']['qualType'])]
+            if env[key] == UNINIT:
+                raise Unsupported('read of a possibly uninitialised local: ' + key)
             lv = conv(env[key], ctype(l), ct)
             res = self.binop(op, lv, ct, self.ev(r, env), ctype(r), rt)
             self.assign(env, key, conv(res, rt, ctype(l)))
@@ -191,6 +221,8 @@ class Fn:
             return f'({fname} {args})'
         if k == 'ConditionalOperator':
             c, a, b = n['inner']
+            if has_side_effect(a) or has_side_effect(b):
+                raise Unsupported('side effect in an arm of ?: (would have to be conditional)')
             cw = ctype(c)[0]
             return f'(if {self.ev(c, env)} != {lit(0, cw)} then {self.ev(a, env)} else {self.ev(b, env)})'
         raise Unsupported('expr ' + k)
@@ -201,6 +233,9 @@ class Fn:
             lop = {'&': '&&&', '|': '|||', '^': '^^^'}.get(op, op)
             return f'({a} {lop} {b})'
         if op in ('<<', '>>'):
+            m = re.fullmatch(r'(\d+)#\d+', b)
+            if not m or int(m.group(1)) >= tr[0]:
+                raise Unsupported('shift by a non-literal or out-of-range amount (undefined behaviour needs a side condition)')
             if op == '<<':
                 return f'({a} <<< ({b}).toNat)'
             return f'(BitVec.sshiftRight {a} ({b}).toNat)' if ta[1] else f'({a} >>> ({b}).toNat)'
@@ -225,6 +260,9 @@ class Fn:
         for key in env:
             if key.startswith('$'):
                 continue
+            if UNINIT in (et.get(key), ee.get(key)):
+                env[key] = UNINIT if et.get(key) != ee.get(key) or et.get(key) == UNINIT else et[key]
+                continue
             if et[key] != ee[key]:
                 base = key.replace('->', '_').replace('*', 'deref_')
                 env[key] = self.bind(base, f'(if {cond} then {et[key]} else {ee[key]})')
@@ -246,9 +284,15 @@ class Fn:
                 self.ex(c, env)
         elif k == 'DeclStmt':
             for d in n['inner']:
+                if d.get('kind') != 'VarDecl':
+                    raise Unsupported('declaration ' + str(d.get('kind')))
+                if d.get('storageClass') in ('static', 'extern'):
+                    raise Unsupported('static/extern local ' + d['name'] + ' (state that persists between calls)')
+                if d['name'] in env:
+                    raise Unsupported('declaration of ' + d['name'] + ' shadows another variable')
                 w, _ = ctype(d)
                 init = [c for c in d.get('inner', []) if not c['kind'].endswith('Comment')]
-                env[d['name']] = self.bind(d['name'], self.ev(init[0], env) if init else lit(0, w))
+                env[d['name']] = self.bind(d['name'], self.ev(init[0], env)) if init else UNINIT
         elif k == 'IfStmt':
             parts = n['inner']
             c = parts[0]
@@ -315,7 +359,9 @@ class Fn:
         elif k == 'BreakStmt':
             raise Unsupported('break outside switch segment')
         elif k == 'ParenExpr' and n['inner'][0].get('castKind') == 'ToVoid' or n.get('castKind') == 'ToVoid':
-            pass  # e.g. assert() under NDEBUG
+            inner = n['inner'][0] if n.get('castKind') == 'ToVoid' else n['inner'][0]['inner'][0]
+            if has_side_effect(inner):
+                self.ev(inner, env)       # (void)(x++): the side effect counts; a pure operand (assert under NDEBUG) is dropped
         else:
             self.ev(n, env)  # expression statement
 
@@ -387,6 +433,8 @@ def load(path, extra):
             for f in c['inner']:
                 if f['kind'] != 'FieldDecl':
                     continue
+                if f.get('isBitfield'):
+                    continue             # bit-fields are not part of the translated state (an access raises)
                 try:
                     fields.append((f['name'], ctype(f)))
                 except Unsupported:
